@@ -38,6 +38,27 @@ pub struct Case {
     pub opt_value: usize,
     /// Some((position, length)): one argument over the per-argument limit
     pub oversize: Option<(usize, usize)>,
+    /// what the arguments (and environment values) are made of: 0 ASCII letters, 1 four-byte UTF-8
+    /// characters (bytes != characters), 2 bytes that are not valid UTF-8
+    #[serde(default)]
+    pub content: u8,
+}
+
+fn fill(len: usize, i: usize, content: u8) -> Vec<u8> {
+    match content {
+        1 => {
+            let mut v = Vec::with_capacity(len);
+            while v.len() + 4 <= len {
+                v.extend_from_slice("\u{1F600}".as_bytes());
+            }
+            while v.len() < len {
+                v.push(b'a' + (i % 26) as u8);
+            }
+            v
+        }
+        2 => vec![0xF5 + (i % 8) as u8; len],
+        _ => vec![b'a' + (i % 26) as u8; len],
+    }
 }
 
 fn stack_bytes(s: u8) -> u64 {
@@ -130,7 +151,7 @@ pub fn gen_case(g: &mut Gen) -> Case {
         let e = g.below(10_000) as f64 / 10_000.0 * max_exp;
         (2f64.powf(e) as usize).clamp(1, 400_000)
     };
-    Case { count, profile, len_seed: g.u64_any(), env: (g.weighted(&[3, 2, 2]) as u8) | if g.bool() { 16 } else { 0 }, stack, opt: g.weighted(&[5, 2, 3, 1]) as u8, opt_value: 0, oversize: None }
+    Case { count, profile, len_seed: g.u64_any(), env: (g.weighted(&[3, 2, 2]) as u8) | if g.bool() { 16 } else { 0 }, stack, opt: g.weighted(&[5, 2, 3, 1]) as u8, opt_value: 0, oversize: None, content: g.weighted(&[3, 2, 1]) as u8 }
 }
 
 fn finish_opts(g: &mut Gen, mut c: Case) -> Case {
@@ -201,7 +222,10 @@ fn build_env(c: &Case) -> Vec<(OsString, OsString)> {
     while left > 64 {
         // each entry costs name + '=' + value + NUL (+ a pointer, which xargs must account for)
         let val = if many { 24.min(left) } else { 100_000.min(left) };
-        v.push((OsString::from(format!("VERIF_PAD_{i:06}")), OsString::from("v".repeat(val))));
+        v.push((OsString::from(format!("VERIF_PAD_{i:06}")), {
+            use std::os::unix::ffi::OsStringExt;
+            OsString::from_vec(fill(val, i, if c.content == 2 { 0 } else { c.content }))
+        }));
         left = left.saturating_sub(val + 20 + if many { 8 } else { 0 });
         i += 1;
     }
@@ -212,12 +236,13 @@ pub fn check(ctx: &mut Ctx, c: &Case) -> Outcome {
     let lens = lengths(c);
     let mut args: Vec<Vec<u8>> = Vec::with_capacity(lens.len() + 1);
     for (i, l) in lens.iter().enumerate() {
-        let ch = b'a' + (i % 26) as u8;
-        args.push(vec![ch; *l]);
+        args.push(fill(*l, i, c.content));
     }
     if let Some((pos, len)) = c.oversize {
         let p = pos.min(args.len());
-        args.insert(p, vec![b'Z'; len]);
+        let mut big = fill(len, 0, c.content);
+        big[0] = b'Z';
+        args.insert(p, big);
     }
     let mut input = Vec::with_capacity(args.iter().map(|a| a.len() + 1).sum());
     for a in &args {
@@ -329,6 +354,8 @@ pub fn check(ctx: &mut Ctx, c: &Case) -> Outcome {
         .class_if(near_limit, "argument-within-2-bytes-of-limit")
         .class_if(c.env & 15 != 0, "large-environment")
         .class_if(c.oversize.is_some(), "oversized-argument")
+        .class_if(c.content == 1, "multi-byte-characters")
+        .class_if(c.content == 2, "non-utf8-bytes")
         .class(match c.stack {
             0 => "stack-256KiB",
             1 => "stack-1MiB",
